@@ -216,8 +216,8 @@ def _tool_sig():
     return file_sig(BCFACTS) or "none"
 
 
-def _cache_path(unit, flags, roots):
-    ov = "".join("%s=%s;" % (k, file_sig(k)) for k in sorted(OVERLAY))
+def _cache_path(unit, flags, roots, with_overlay=True):
+    ov = "".join("%s=%s;" % (k, file_sig(k)) for k in sorted(OVERLAY)) if with_overlay else ""
     h = hashlib.sha1(("\0".join([unit] + flags + roots) + _tool_sig() + ov).encode()).hexdigest()[:20]
     base = os.path.basename(unit)
     return os.path.join(CACHE, "facts", "%s.%s.json" % (base, h))
@@ -244,8 +244,17 @@ def extract_unit(unit, flags=None, roots=None):
         flags = db[unit]
     roots = roots or [os.path.join(REPO, "src")]
     aflags = analysis_flags(flags)
-    out = _cache_path(unit, aflags, roots)
+    out = _cache_path(unit, aflags, roots, with_overlay=False)
     meta = out + ".meta"
+    if OVERLAY:
+        # a unit that does not depend on any overlaid file is served by its ordinary cache entry
+        try:
+            base_deps = set(json.load(open(meta))["deps"])
+        except (OSError, ValueError, KeyError):
+            base_deps = None
+        if base_deps is None or (base_deps & set(OVERLAY)) or os.path.normpath(unit) in OVERLAY:
+            out = _cache_path(unit, aflags, roots, with_overlay=True)
+            meta = out + ".meta"
     if os.path.exists(out) and _valid(meta):
         return out
     os.makedirs(os.path.dirname(out), exist_ok=True)
